@@ -20,7 +20,7 @@ from earthkit.workflows.graph import (
 from earthkit.workflows.graph import join_namespaced
 
 from vf import common
-from vf.graphs import GraphSpec, Interp, Malformed, all_nodes, dag_specs, freeze, with_swapped_twins
+from vf.graphs import with_double_edges, GraphSpec, Interp, Malformed, all_nodes, dag_specs, freeze, with_swapped_twins
 
 PROP = "C11"
 
@@ -447,6 +447,17 @@ def t_split(spec: GraphSpec):
         if len(cut_names) != len(cuts):
             out.append(V("split_cut_names", "two cut edges share a name", tag))
             continue
+        # the reported cuts are exactly the edges of the original graph whose ends got different keys -- one record per
+        # (consumer, input), also when one output crosses into the same part several times
+        kf = mk(idx)
+        g0, objs0 = spec.build()
+        idx0 = {id(n): i for i, n in enumerate(objs0)}
+        kf0 = mk(idx0)
+        want_cuts = sorted((s.parent.name, s.name, n.name, iname) for n in objs0 for iname, s in n.inputs.items() if kf0(s.parent) != kf0(n))
+        got_cuts = sorted((c.source_node, c.source_output, c.dest_node, c.dest_input) for c in cuts)
+        if got_cuts != want_cuts:
+            out.append(V("split_cut_records", "the reported cut edges are not exactly the edges that cross between parts", f"{tag}: {got_cuts} vs {want_cuts}"))
+            continue
         # re-join along the cut edges: a placeholder source named after a cut denotes the input of the sink of that name
         sink_of = {}
         for p in parts.values():
@@ -514,6 +525,12 @@ def specs_for(ctx):
         specs += dag_specs(n, "unique", payloads=("alt",), outputs=("multi",), out_names=("0", "b"))
     for n in (2, 3):
         specs += dag_specs(n, "unique", payloads=("alt",), outputs=("single-named",), out_names=("result",))
+    # two inputs of one node wired to one upstream output
+    for n in ((2, 3) if ctx.quick else (2, 3, 4)):
+        for sp in dag_specs(n, "unique", payloads=("alt",), outputs=("default", "multi")):
+            de = with_double_edges(sp)
+            if de is not None:
+                specs.append(de)
     # sink lists as unions produce them (`g1 + g2` with g2 extending g1): interior nodes listed as sinks too, one sink twice
     for n in ((2, 3) if ctx.quick else (2, 3, 4)):
         for sp in dag_specs(n, "unique", payloads=("alt",), outputs=("default", "multi")):
